@@ -244,7 +244,7 @@ func divergent(t *rapid.T) (prog.Generated, string) {
 		}
 	}
 	base := prog.Rule{Head: prog.Atom{Pred: "i0", Args: []prog.Term{v("X")}}, Body: []prog.Lit{prog.PosLit(prog.Atom{Pred: "e0", Args: []prog.Term{v("X")}})}}
-	shape := rapid.SampledFrom([]string{"diverge-plus", "diverge-mult", "diverge-mutual", "diverge-let", "diverge-list", "diverge-pair", "finite-counter", "finite-product", "diverge-late-stratum", "finite-groups", "finite-groups", "finite-member-fanout"}).Draw(t, "shape")
+	shape := rapid.SampledFrom([]string{"diverge-plus", "diverge-mult", "diverge-mutual", "diverge-let", "diverge-list", "diverge-pair", "finite-counter", "finite-product", "diverge-late-stratum", "finite-groups", "finite-groups", "finite-member-fanout", "finite-repeated-var"}).Draw(t, "shape")
 	step := func(head, body string, fn string, k int64) prog.Rule {
 		return prog.Rule{Head: prog.Atom{Pred: head, Args: []prog.Term{v("Y")}},
 			Body: []prog.Lit{prog.PosLit(prog.Atom{Pred: body, Args: []prog.Term{v("X")}}), prog.EqLit(v("Y"), prog.Fn(fn, v("X"), prog.Num(k)))}}
@@ -322,6 +322,33 @@ func divergent(t *rapid.T) (prog.Generated, string) {
 			r.Body = append(r.Body, prog.PosLit(prog.Atom{Pred: ":list:member", Args: []prog.Term{v(x), v("L")}}))
 		}
 		g.Prog.Rules = []prog.Rule{base, r}
+	case "finite-repeated-var":
+		// a small model read out of a relation that is larger than the limit through a premise the store cannot
+		// filter by itself (one variable in two positions): e1 holds 4-30 pairs, 1-3 of them (at drawn places)
+		// with equal components; the limit is about created facts, not about facts looked at
+		m := rapid.IntRange(4, 30).Draw(t, "pairs")
+		diag := map[int]bool{}
+		for _, k := range rapid.SliceOfNDistinct(rapid.IntRange(0, m-1), 1, 3, rapid.ID[int]).Draw(t, "diagonal") {
+			diag[k] = true
+		}
+		g.Prog.Decls = append(g.Prog.Decls, prog.Decl{Pred: "e1", Arity: 2})
+		inText := rapid.Bool().Draw(t, "pairsInText")
+		for k := 0; k < m; k++ {
+			a := prog.Atom{Pred: "e1", Args: []prog.Term{prog.Num(int64(k)), prog.Num(int64(k + 1))}}
+			if diag[k] {
+				a.Args[1] = prog.Num(int64(k))
+			}
+			if inText {
+				g.Prog.Facts = append(g.Prog.Facts, a)
+			} else {
+				g.Extra = append(g.Extra, a)
+			}
+		}
+		r := prog.Rule{Head: prog.Atom{Pred: "i1", Args: []prog.Term{v("X")}}, Body: []prog.Lit{prog.PosLit(prog.Atom{Pred: "e1", Args: []prog.Term{v("X"), v("X")}})}}
+		g.Prog.Rules = []prog.Rule{r}
+		if rapid.Bool().Draw(t, "withBase") {
+			g.Prog.Rules = []prog.Rule{base, r}
+		}
 	case "diverge-late-stratum":
 		// a finite first stratum, divergence only in a later one (after a negation)
 		neg := prog.Rule{Head: prog.Atom{Pred: "i1", Args: []prog.Term{v("X")}}, Body: []prog.Lit{prog.PosLit(prog.Atom{Pred: "i0", Args: []prog.Term{v("X")}}), prog.NegLit(prog.Atom{Pred: "e0", Args: []prog.Term{prog.Num(99)}})}}
